@@ -121,7 +121,9 @@ pub fn expr(e: &ast::Expression) -> Sx {
                         Some(t) => tas.push(t),
                         None => return unsup("TemplateArgType"),
                     },
-                    _ => return unsup("TemplateArgValue"),
+                    // a value argument: the instantiation is a definition of its own, the value is already in its body
+                    ast::ExpressionOrType::Expression(e) => tas.push(node("tv", vec![expr(&e.node)])),
+                    ast::ExpressionOrType::Either(e, _) => tas.push(node("tv", vec![expr(&e.node)])),
                 }
             }
             match &f.node {
